@@ -195,7 +195,7 @@ func C08(c *run.Ctx) {
 		r := caseRng(c, i)
 		v := variant(i*c.NShards + c.Shard)
 		w := v.build(nil)
-		s := sim.New(w, c, "alive:revoke", "dead-unexpected", "revoke-unauthenticated", "revoke-invalid-token-not-success", "revoke-foreign-class", "revoke-refused", "revoke-changed-state")
+		s := sim.New(w, c, "alive:revoke", "dead-unexpected", "revoke-unauthenticated", "revoke-invalid-token-not-success", "revoke-foreign-class", "revoke-refused", "revoke-changed-state", "revoke-expired-changed-state")
 		s.CaseID = id
 		sc := []string{"openid", "offline", "photos"}
 		// a cast of grants of every origin, including hybrid responses with an implicit token
@@ -237,7 +237,11 @@ func C08(c *run.Ctx) {
 			if r.Intn(6) == 0 && len(s.Toks) > 0 {
 				// never issued / mutated tokens: answered with success, nothing changes
 				t := pick(r, s.Toks)
-				unknown := pick(r, []string{"ory_at_never.issued", "garbage", mutateTok(t.Value, 0), mutateTok(t.Value, 2), "ory_rt_" + strings.Repeat("A", 43) + "." + strings.Repeat("B", 43)})
+				unknown := pick(r, []string{"ory_at_never.issued", "garbage", mutateTok(t.Value, 0), mutateTok(t.Value, 2), "ory_rt_" + strings.Repeat("A", 43) + "." + strings.Repeat("B", 43), forgeRandomPart(t.Value)})
+				if unknown == t.Value { // not an opaque token: nothing to forge
+					unknown = "garbage"
+				}
+				forged := unknown == forgeRandomPart(t.Value)
 				before := w.Store.Digest()
 				out := w.Revoke(url.Values{"token": {unknown}, "token_type_hint": {pick(r, []string{"", "access_token", "refresh_token"})}}, authFor(w, t.Grant.Client))
 				c.Case(fmt.Sprintf("revoke unknown-token err=%s status=%d", out.ErrName, out.Status))
@@ -246,7 +250,14 @@ func C08(c *run.Ctx) {
 					c.Violate(run.Violation{Kind: "revoke-invalid-token-not-success", Key: "revoke-invalid-token-not-success unknown", Case: id, Detail: fmt.Sprintf("revoking a never-issued token answered %s / %d", out.ErrName, out.Status), History: s.Hist})
 				}
 				if d := world.DigestDiff(before, w.Store.Digest()); len(d) > 0 {
-					c.Violate(run.Violation{Kind: "revoke-changed-state", Key: "revoke-changed-state unknown-token", Case: id, Detail: strings.Join(d, "\n"), History: s.Hist})
+					key := "revoke-changed-state unknown-token"
+					if forged {
+						// never issued by this server: the random part is not the one the signature authenticates
+						key = "revoke-changed-state never-issued token: stored signature behind a different random part"
+						c.Count("revocations_of_forged_random_part_effective", 1)
+						s.ForgetAfterForgedRevocation(t)
+					}
+					c.Violate(run.Violation{Kind: "revoke-changed-state", Key: key, Case: id, Detail: strings.Join(d, "\n"), History: s.Hist})
 				}
 				s.Sweep("revoke-unknown")
 				continue
@@ -285,4 +296,26 @@ func c09hist(c *run.Ctx) {
 			c.Sample(sample(s, v))
 		}
 	}
+}
+
+// forgeRandomPart keeps an opaque token's signature part and replaces its random part (a string this server never issued).
+// JWTs and malformed values are returned unchanged.
+func forgeRandomPart(v string) string {
+	parts := strings.Split(v, ".")
+	if len(parts) != 2 || len(parts[0]) < 12 {
+		return v
+	}
+	i := strings.LastIndex(parts[0], "_") + 1
+	if i >= len(parts[0]) {
+		return v
+	}
+	b := []byte(parts[0])
+	for j := i; j < len(b); j++ {
+		if b[j] == 'A' {
+			b[j] = 'B'
+		} else {
+			b[j] = 'A'
+		}
+	}
+	return string(b) + "." + parts[1]
 }
